@@ -72,6 +72,7 @@ class Ctx:
     histogram: dict = field(default_factory=dict)
     broken: list = field(default_factory=list)
     failures: list = field(default_factory=list)
+    fail_counts: dict = field(default_factory=dict)
     model_cases: int = 0
     corpus_replayed: int = 0
     notes: list = field(default_factory=list)
@@ -96,7 +97,10 @@ class Ctx:
             self.broken.append(Broken("correspondence", what, detail, case))
 
     def fail(self, key: str, detail: str, replay: Any) -> None:
-        if len(self.failures) < 200:
+        # keep at most a few witnesses per key (known findings hit on every run must never crowd out a new key)
+        n = self.fail_counts.get(key, 0) + 1
+        self.fail_counts[key] = n
+        if n <= 8 and len(self.failures) < 4000:
             self.failures.append(Failure(key, detail, replay))
 
     def time_left(self) -> float:
@@ -408,7 +412,7 @@ def run_check(prop: Property, tier: str, seed: int) -> int:
             if f.key in open_findings:
                 known_hit.setdefault(f.key, []).append(f)
         for key, fs in known_hit.items():
-            print(f"KNOWN-FINDING: property={prop.pid} {open_findings[key]['line']} [{len(fs)} case(s) this run]")
+            print(f"KNOWN-FINDING: property={prop.pid} {open_findings[key]['line']} [{ctx.fail_counts.get(key, len(fs))} case(s) this run]")
         violations = 0
         if unknown:
             seen = set()
@@ -457,7 +461,7 @@ def run_check(prop: Property, tier: str, seed: int) -> int:
                 "samples": ctx.samples[:12] or ["(none)"],
                 "correspondence": {"model_lines": ctx.model_cases, "disagreements": len([b for b in broken if b.stage == "correspondence"]),
                                    "histogram": ctx.histogram, "corpus_replayed": ctx.corpus_replayed},
-                "property_failures_on_real_code": len(ctx.failures),
+                "property_failures_on_real_code": sum(ctx.fail_counts.values()) or len(ctx.failures),
                 "known_findings_hit": sorted(known_hit), "fixed_findings": [r.get("line") for r in fixed],
                 "broken": [f"{b.stage}: {b.what}" for b in broken][:20],
                 "notes": ctx.notes, **ctx.extra,
